@@ -1,5 +1,32 @@
 /-
   C06 — property theorems (model and specification: ShelxModel/C06.lean).
+
+  Quantified over ALL instructions `l : List Char` (any number of tokens, any token lengths, any runs of blanks);
+  the wrap width, indent, suffix and separator are the constants the translator reads off `misc.wrap_line` on every
+  run (`Cfg.extracted`), and `consts_ok` is the decidable statement about them (`len(sep) + width + len(" =") ≤ 80`, …)
+  that an edited constant breaks.
+
+    wrap_width      noNL l →                        every physical line of `wrapLine l` has at most 80 columns
+    wrap_shape      noNL l →                        all but the last end in " =", all but the first begin with a blank
+    wrap_tokens     noNL l → endOk l → noLongTok l → the continuation-joining lexer gives exactly one logical line, with
+                                                    the token sequence of `l` (so every break is between two tokens)
+    wrap_nonblank   noNL l → endOk l →              … with the non-blank characters of `l`, in order (over-long tokens too)
+    write_item_width                                the same bound for every '\n'-separated part of any item text
+    fvar_lines_valid / sfac_line_valid              every line of the multi-line printers is keyword + ≥ 1 parameter
+    wrap_width_fails_on_79, wrap_tokens_fails_on_long_token, sfac_line_fails_on_empty, fvar_value_alone_is_bare   witnesses
+
+  Hypotheses: `noNL` — the writer splits at '\n' before it wraps, so `wrap_line` never sees one; `endOk` — the
+  instruction does not itself end in '=' (such a line is not a complete instruction in a SHELXL file; the real code
+  returns it with the dangling mark, checked by the harness in the correspondence stream only); `noLongTok` — no token is
+  longer than `width - len(indent)` = 75 characters: such a token cannot be kept whole on a continuation line, the code
+  splits it (`break_long_words`), `wrap_tokens_fails_on_long_token` shows the statement is false without it, and
+  `wrap_nonblank` states what survives. White space other than the blank (tabs, which textwrap expands) is outside
+  the model's domain (harness assumption).
+
+  Open findings of the second half (written files after index-shifting edits; explicit SFAC) are not statements about
+  `wrap_line`; full-strength statement: every logical line of `write (edit* (parse f))` is an instruction, atom or
+  comment with its parameters. Proved here: the per-printer parts (`fvar_lines_valid`, `sfac_line_valid` — partial, see
+  there) and the two witnesses.
 -/
 import ShelxModel.C06
 
@@ -1068,7 +1095,7 @@ theorem fvar_lines_valid_gen (n : Nat) (kw pre sep : List Char) (hn : 1 ≤ n) (
   unfold fvarLines groups
   generalize groupsAux n vals.length vals = gs at he hf
   have ht : ∀ g ∈ gs, tokens (pre ++ joinWith sep g) = kw :: g :=
-    fun g hg => tokens_prefixed kw pre sep hp hs g (fun v hv => hv' v ((he g hg).2.2 v hv))
+    fun g hg => tokens_prefixed kw pre sep hp hs g (fun v hv' => hv v ((he g hg).2.2 v hv'))
   constructor
   · intro ln hln
     obtain ⟨g, hg, rfl⟩ := List.mem_map.mp hln
@@ -1081,7 +1108,6 @@ theorem fvar_lines_valid_gen (n : Nat) (kw pre sep : List Char) (hn : 1 ≤ n) (
       simp only [List.map_cons, List.flatMap_cons, List.flatten_cons]
       rw [ht g (by simp), ih (fun g' hg' => ht g' (by simp [hg']))]
       rfl
-where hv' := hv
 
 /-- **C06, second half, SFAC.** With at least one element the table prints the keyword `SFAC` followed by the elements. -/
 theorem sfac_line_valid_gen (kw pre sep : List Char) (hp : prefixOk kw pre = true) (hs : sepOk sep = true)
